@@ -61,6 +61,59 @@ def input_class(c, upto):
     return "+".join(cls) or "plain"
 
 
+def glob_stream(chk, binp):
+    """string layer: Lean `gmatch` / `escapeGlob` against Go's filepath.Match and jsondb's escapeGlob"""
+    import subprocess
+    rng = chk.rng
+    alpha = list("ab.x1 _-") + ["*", "?", "[", "]", "\\", "/", "é", "日"]
+    def word(n, pool=alpha):
+        return "".join(rng.choice(pool) for _ in range(n))
+    lines, kinds = [], []
+    hx = lambda t: t.encode().hex() or "-"
+    for _ in range(1500 if chk.tier == "quick" else 15000):
+        k = rng.random()
+        if k < 0.25:                       # escapeGlob itself
+            lines.append("- " + hx(word(rng.randint(1, 10)))); kinds.append("esc"); continue
+        pwd = word(rng.randint(1, 8))
+        esc = "".join(("\\" + c) if c in "\\*?[" else c for c in pwd)
+        if k < 0.6:                        # the store's own pattern against its own / foreign / mutated names
+            pat = esc + "*.dat"
+            r = rng.random()
+            if r < 0.4: name = pwd + word(rng.randint(0, 6), list("0123456789.:_cab")) + ".dat"
+            elif r < 0.55: name = pwd + word(rng.randint(0, 4)) + ".dat"
+            elif r < 0.7: name = word(rng.randint(1, 8)) + ".dat"
+            elif r < 0.85: name = pwd[:-1] + word(2) + ".dat"
+            else: name = pwd + word(3) + ".da"
+        else:                              # arbitrary class-free patterns
+            pat = word(rng.randint(0, 7), [c for c in alpha if c not in "[]"])
+            name = word(rng.randint(0, 7), [c for c in alpha if c not in "[]"])
+            if rng.random() < 0.5:
+                name = "".join(c if c not in "*?\\" else rng.choice("abx") for c in pat) + (word(1) if rng.random() < 0.3 else "")
+        if not pat or not name: continue
+        lines.append(hx(pat) + " " + hx(name)); kinds.append("own" if k < 0.6 else "free")
+    text = "\n".join(lines) + "\n"
+    p = subprocess.run([binp, "match"], input=text, stdout=subprocess.PIPE, stderr=subprocess.PIPE, text=True, timeout=600)
+    rc, dout, derr = common.run_driver("glob", text, timeout=600)
+    g, m = p.stdout.split(), dout.split()
+    if len(g) != len(lines) or len(m) != len(lines):
+        chk.oblige("correspondence:glob-output-count", False, "%d %d %d %s" % (len(g), len(m), len(lines), derr[-300:])); return
+    st = {"lines": len(lines), "esc": 0, "own": 0, "free": 0, "matched": 0, "go_err": 0}
+    bad = 0
+    for ln, kd, a, b in zip(lines, kinds, g, m):
+        st[kd] += 1; st["matched"] += a == "1"; st["go_err"] += a == "err"
+        chk.evaluations += 1
+        if a == "err":            # malformed pattern (trailing backslash): Go reports ErrBadPattern, the model says no match
+            if b != "0": bad += 1
+            continue
+        if a != b:
+            bad += 1
+            if bad <= 3:
+                chk.oblige("correspondence:glob:%s" % ln, False, "filepath.Match/escapeGlob=%s model=%s (kind %s)" % (a, b, kd))
+    if bad == 0:
+        chk.oblige("correspondence:glob (Lean gmatch = filepath.Match on class-free patterns, Lean escapeGlob = jsondb.escapeGlob)", True)
+    return st
+
+
 def run(chk, replay):
     chk.trusted = common.TRUSTED_COMMON + [
         "string layer of the store (file-name rendering, filepath.Glob, the timestamp regex, md5 of the DAG path) is below the "
@@ -136,6 +189,7 @@ def run(chk, replay):
                                "op %s\nmodel=%s\nimpl =%s\ncase=%s" % (json.dumps(o), m[i], impl_line(c, a), json.dumps(c)))
                 break
     chk.disagreements_checked = chk.disagreements
+    stat["glob_stream"] = glob_stream(chk, binp) if not replay else {}
     if dis == 0:
         chk.oblige("correspondence:hist (after every operation: every lookup, latest and recent answer for every DAG, and the file count: model = implementation)", True)
     chk.stats = stat
